@@ -358,14 +358,27 @@ def r19g(ctx: Context) -> None:
     sites = [s for f in closure for s in prog.sites_in(f) if s.external in ("glob.glob", "glob.iglob")]
     if not sites:
         raise AnalysisError("determine_files_to_scan no longer expands globs")
-    for site in sites:
+    closure_names = {f.qualname for f in closure}
+
+    def contexts(holder: FuncInfo, node: ast.AST, depth: int = 0) -> List[List[Tuple[ast.AST, bool]]]:
+        """the guard facts under which ``node`` runs, per call path from determine_files_to_scan"""
+        own = list(guards_of(holder.node, node, include_asserts=False))
+        if holder == func or depth > 4:
+            return [own]
+        ups = [s for s in prog.callers.get(holder.qualname, []) if s.caller.qualname in closure_names and s.caller != holder]
+        if not ups:
+            return [own]
+        return [outer + own for up in ups for outer in contexts(up.caller, up.node, depth + 1)]
+
+    for site in [(s, c) for s in sites for c in contexts(s.caller, s.node)]:
+        site, context = site
         holder = site.caller
         key = func_key(holder, site.node) + " [glob trigger]"
         # the condition under which the argument is expanded: the positive guard facts that test for characters
         chars: Set[str] = set()
         exact = True
         triggers = []
-        for test, polarity in guards_of(holder.node, site.node, include_asserts=False):
+        for test, polarity in context:
             operands = test.values if isinstance(test, ast.BoolOp) and isinstance(test.op, ast.Or) else [test]
             membership = [o for o in operands if isinstance(o, ast.Compare) and len(o.ops) == 1 and isinstance(o.ops[0], ast.In) and isinstance(o.left, ast.Constant) and isinstance(o.left.value, str)]
             if not membership:
@@ -377,7 +390,7 @@ def r19g(ctx: Context) -> None:
         if not triggers:
             rule.fail(key, site.where, "every path argument is expanded as a glob: a literal name containing glob characters can no longer be named")
             continue
-        other = [norm(t) for t, p in guards_of(holder.node, site.node, include_asserts=False) if t not in triggers]
+        other = [norm(t) for t, p in context if t not in triggers]
         if exact and chars == documented and not other:
             rule.ok(key, "'*' in path or '?' in path")
         else:
